@@ -59,6 +59,57 @@ let dump head =
       print_endline ("bloom " ^ (if !ws = [] then "-" else String.concat "," (List.rev !ws)))
     end) all_fams
 
+
+(* ---------- the history-pruner migration (C16/Migrate.v): session state ---------- *)
+let m_ch : chain ref = ref { c_head = N0; c_ts = (fun _ -> N0); c_dlen = (fun _ -> N0) }
+let m_u : mstore ref = ref (full_mstore N0 (fun _ _ -> None))   (* the database before the migration *)
+let m_cur : mstore ref = ref !m_u
+let m_pre : mstore ref = ref !m_u                                (* before the last `mig run` *)
+let m_plan : mop list list ref = ref []                          (* batches of the last `mig run` *)
+
+let memo2 (f : n -> n -> n option) : n -> n -> n option =
+  let t = Hashtbl.create 1024 in
+  fun i j -> let key = (int_of_n i, int_of_n j) in
+    match Hashtbl.find_opt t key with Some v -> v | None -> let v = f i j in Hashtbl.add t key v; v
+let mmemo (m : mstore) : mstore = { blk = memo m.blk; hlog = memo2 m.hlog; scr = memo2 m.scr; mark = m.mark }
+
+let parse_nlist s = if s = "-" then [||] else Array.of_list (List.map n (split_on ',' s))
+let arr_fun a = fun x -> let i = int_of_n x in if i < Array.length a then a.(i) else N0
+let parse_blockbatches s =
+  if s = "-" then [] else
+  List.map (fun b -> if b = "e" then [] else List.map n (split_on ',' b)) (String.split_on_char ';' s)
+let parse_blob s = if s = "-" then None else
+  (match String.split_on_char ':' s with [a; b; c] -> Some ((n a, n b), n c) | _ -> failwith "blob")
+let parse_stop s =
+  match String.split_on_char ':' s with
+  | ["none"] -> SNone | ["cs"; c] -> SCancelStage (n c) | ["cr"; c] -> SCancelRestore (n c)
+  | ["f1"] -> SFailSetup1 | ["fs"] -> SFailStage | ["f2"] -> SFailSetup2 | ["fr"] -> SFailRestore
+  | ["fw"] -> SFailWipe | _ -> failwith "stop"
+let show_res = function
+  | RDone -> "done" | RErr -> "err" | RCrash -> "crash"
+  | RBlob (a, b, c) -> "blob:" ^ ni a ^ ":" ^ ni b ^ ":" ^ ni c
+let batch_summary (b : mop list) : string =
+  let toks = List.filter_map (fun o -> match summary_tag o with
+    | (t, x) -> (match int_of_n t with
+        | 1 -> Some ("P" ^ ni x) | 2 -> Some "WL" | 3 -> Some "WH" | 4 -> Some "WS"
+        | 5 -> Some ("seed" ^ ni x) | 6 -> Some ("S" ^ ni x) | 7 -> Some ("R" ^ ni x) | _ -> None)) b in
+  let toks = List.sort_uniq compare toks in
+  if toks = [] then "e" else String.concat "," toks
+let mig_dump (m : mstore) =
+  let head = int_of_n !m_ch.c_head in
+  let is = List.init (head + 1) (fun i -> i) in
+  List.iter (fun f ->
+    print_endline (fam_name f ^ " " ^ bits (List.map (fun i -> m.blk f (n_of_int i)) is)))
+    [Hdr; H2n; Txs; Txl; L1l; Su; Cm];
+  let entries (g : n -> n -> n option) =
+    String.concat ";" (List.map (fun i ->
+      let d = int_of_n (!m_ch.c_dlen (n_of_int i)) in
+      String.concat "." (List.init d (fun j ->
+        match g (n_of_int i) (n_of_int j) with None -> "-" | Some v -> hex_of_n v))) is) in
+  print_endline ("hist " ^ entries m.hlog);
+  print_endline ("scr " ^ entries m.scr);
+  print_endline ("mark " ^ (if m.mark then "1" else "0"))
+
 let () =
   read_lines (fun line ->
     (match words line with
@@ -119,5 +170,49 @@ let () =
     | ["rn"; x; lg] -> print_endline (ni (read_new (parse_logs lg) (!cur HistNew) (n x) N0))
     | ["lu"; newstyle; x; lg] ->
         print_endline (ni (last_upd (parse_logs lg) (!cur (if b newstyle then HistNew else Hist)) (n x) N0))
+    (* ---- history-pruner migration ---- *)
+    | ["mig"; "init"; head; dlens; tss; logs] ->
+        (* dlens / tss: comma lists over blocks 0..head; logs: i:j:hexvalue,... or - *)
+        let dl = parse_nlist dlens and ts = parse_nlist tss in
+        let tbl = Hashtbl.create 256 in
+        if logs <> "-" then List.iter (fun e -> match String.split_on_char ':' e with
+          | [i; j; v] -> Hashtbl.replace tbl (int_of_string i, int_of_string j) (n_of_hex v)
+          | _ -> failwith "log") (split_on ',' logs);
+        m_ch := { c_head = n head; c_ts = arr_fun ts; c_dlen = arr_fun dl };
+        m_u := full_mstore (n head) (fun i j -> Hashtbl.find_opt tbl (int_of_n i, int_of_n j));
+        m_cur := !m_u; m_pre := !m_u; m_plan := [];
+        print_endline "ok"
+    | ["mig"; "run"; l1; ret; cutoff; bl; stage; restore; stop; crash] ->
+        (* reply line 1: <result> floor=<fl|-> ok=<sched_ok> exact=<no block twice> safe=1 (no crash point is excluded any more) n=<batches>
+           line 2: the batches of the call (summaries, | separated) *)
+        let g = { g_retained = n ret; g_cutoff = opt cutoff } in
+        let pb = parse_blob bl in
+        let sc = { s_stage = parse_blockbatches stage; s_restore = parse_blockbatches restore;
+                   s_stop = parse_stop stop;
+                   s_crash = (if crash = "-" then None else Some (nat_of_int (int_of_string crash))) } in
+        let fl = run_floor !m_ch (opt l1) g pb !m_cur in
+        (* the call's batches are applied to the database with the restage marker already written *)
+        let pre = (match pb, fl with
+          | Some ((sp, rp), f), Some _ -> run_pre !m_ch !m_cur sp rp f
+          | _ -> !m_cur) in
+        let plan, ok, safe = (match fl with
+          | None -> [], true, true
+          | Some f ->
+              let ((sp, rp), _) = start_of !m_ch !m_cur pb f in   (* incl. the restage decision *)
+              fst (mig_plan !m_ch pre sp rp f sc), sched_ok !m_ch sp rp f sc, true) in
+        let (m', r) = mig_run !m_ch (opt l1) g pb !m_cur sc in
+        m_pre := pre; m_plan := plan; m_cur := mmemo m';
+        print_endline (show_res r ^ " floor=" ^ (match fl with None -> "-" | Some f -> ni f)
+          ^ " ok=" ^ (if ok then "1" else "0") ^ " exact=" ^ (if sched_exact sc then "1" else "0")
+          ^ " safe=" ^ (if safe then "1" else "0") ^ " n=" ^ string_of_int (List.length plan));
+        print_endline ("batches " ^ String.concat "|" (List.map batch_summary plan))
+    | ["mig"; "dump"; k] ->      (* 10 lines: the database after k batches of the last call, or "cur" *)
+        if k = "cur" then mig_dump !m_cur
+        else mig_dump (mmemo (mapply_batches !m_ch !m_pre (firstn (nat_of_int (int_of_string k)) !m_plan)))
+    | ["mig"; "final"; fl] ->    (* 10 lines: what the theorems say the completed migration leaves *)
+        mig_dump (mig_final !m_u (n fl))
+    | ["mig"; "floor"; l1; head; ret; fl; fy] ->
+        print_endline (if mig_floor_ok (n l1) (n head) (n ret) (n fl) (opt fy) then "1" else "0")
+    | ["mig"; "unguarded"; fl] -> print_endline (hex_of_n (setup2_seed_unguarded (n fl)))
     | _ -> print_endline ("error: " ^ line));
     flush stdout)
